@@ -35,6 +35,9 @@ def gen_allowed(rng):
     return sorted(sub)
 
 
+MUTATE_ALLOWED = False
+
+
 class C03(Check):
     ID = 'C03'
     LEVEL = 'exploration'
@@ -110,8 +113,14 @@ class C03(Check):
             if arng.random() < 0.15:
                 # the caller edits the list `formats` returns, then asks again
                 case['spoil'] = arng.choice(imgsim.SPOILS)
+            # (withdrawn: WHICH value of a collection that is edited after
+            # the call counts as "allowed_formats" is not something the
+            # statement settles - a wrapper that builds its inspectors
+            # lazily keeps the property as stated; the draw is kept so that
+            # the rest of the generation is unchanged)
             if case['allowed'] and arng.random() < 0.08 and \
-                    (case.get('styles') or [0, None])[1] in (None, 'set'):
+                    (case.get('styles') or [0, None])[1] in (None, 'set') \
+                    and MUTATE_ALLOWED:
                 # ... or goes on editing the collection it passed
                 case['mutate_allowed'] = arng.choice(('clear', 'add_all'))
             case['kind'] = core.weighted(arng, imgsim.CHUNK_KINDS)
